@@ -441,8 +441,8 @@ def _one(ctx, spec, states, n, T, seed, run, profile) -> bool:
         if abs(tr - 1.0) > trace_tol:
             ctx.viol("C11/trace", 0, f"state at t={t} has trace/norm {tr!r} (noise {spec['noise']})")
             return False
-        if np.abs(rho - rho.conj().T).max() > 1e-9:
-            ctx.viol("C11/not-hermitian", 0, f"density matrix at t={t} is not Hermitian")
+        if np.abs(rho - rho.conj().T).max() > 1e-6:  # the ODE solver works to atol 1e-8 per component and step
+            ctx.viol("C11/not-hermitian", 0, f"density matrix at t={t} is not Hermitian (max |rho - rho^dagger| = {np.abs(rho - rho.conj().T).max():.3g})")
             return False
         if np.linalg.eigvalsh((rho + rho.conj().T) / 2).min() < -1e-4:
             ctx.viol("C11/not-positive", 0, f"density matrix at t={t} has eigenvalue {np.linalg.eigvalsh(rho).min()!r}")
